@@ -650,6 +650,80 @@ fn build_chains(env: &Env) -> (Chain, Chain) {
     (main, fork)
 }
 
+/// A fork switch away and back (main -> fork -> main, both within last-N = 10) with both blocks of
+/// height 12 stored: the header of main#12 is fetched, the peers adopt the fork, the header of
+/// fork#12 is fetched, the peers return to the (meanwhile heavier) main chain, and transaction Y
+/// of main#12 is fetched. Every committed answer must name a stored block whose transactions
+/// root commits to the transaction - the per-height slot must point to main#12 again.
+fn switch_back_pass(env: &Env, report: &mut Report) {
+    let mut m = make_model(env, false, true);
+    m.cfg.last_n = 10;
+    // (no check point may become final inside the forked range: a reorganisation below a final
+    // check point is outside every property - in production the interval is 2000, last-N 100)
+    m.cfg.cp_interval = 40;
+    let mut sim = m.init(None);
+    sim.record_trace = true;
+    // (one serving peer: two peers that sit on different branches for a while are C05's subject)
+    sim.disconnect(2);
+    let mut round = |sim: &mut Sim| {
+        sim.cm().tick_lc(1);
+        sim.pump_out();
+        let _ = sim.converge(80);
+    };
+    let r = crate::verif::props::panics::catch(|| {
+        m.call_hd(&mut sim, 1);
+        round(&mut sim);
+        m.call_hd(&mut sim, 1);
+        sim.set_view(1, 1, 17, true);
+        let _ = sim.converge(80);
+        m.call_hd(&mut sim, 2);
+        round(&mut sim);
+        m.call_hd(&mut sim, 2);
+        sim.set_view(1, 0, 20, true);
+        let _ = sim.converge(80);
+        m.call_tx(&mut sim, 1);
+        round(&mut sim);
+        m.call_tx(&mut sim, 1)
+    });
+    report.count("switch_back_runs", 1);
+    report.count("transitions", 1);
+    let final_status = match r {
+        Err(p) => {
+            if !p.msg.contains("long fork detected") {
+                report.violation(format!("abort/{}", p.site()), format!("{} [fork switch away and back]", p.describe()), json!({"scenario": "switch-back"}));
+            }
+            return;
+        }
+        Ok(st) => st,
+    };
+    let mut bad: Vec<(String, String)> = m.track.borrow_mut().pending.drain(..).collect();
+    if !sim.bans().is_empty() {
+        bad.push(("honest-peer-banned".into(), format!("{:?}", sim.bans())));
+    }
+    let tip_ok = sim.c().tip_number() == 20;
+    if final_status != 3 || !tip_ok {
+        bad.push(("harness/switch-back-not-reached".into(), format!("Y ends with status {} and the tip is {} (the pass would be vacuous)", final_status, sim.c().tip_number())));
+    }
+    // a transaction of an ABANDONED block (YF: only the fork contains it; it was indexed while the
+    // fork was the best chain) that is reported committed in the block which replaced it is the
+    // recorded finding (records keyed by block number survive a rollback) reached another way;
+    // a transaction of the FINAL chain reported in the wrong block is not
+    for (class, detail) in m.committed_answers(&sim) {
+        if class == "committed-in-a-block-that-does-not-contain-it" && detail.starts_with(TX_NAMES[3]) {
+            report.violation(format!("{}/fork", class), format!("[switch-back pass] {}", detail), json!({"scenario": "switch-back", "transaction": TX_NAMES[3]}));
+        } else {
+            bad.push((class, detail));
+        }
+    }
+    for (class, items) in crate::verif::oracle::group(bad) {
+        report.violation(
+            format!("{}/switch-back", class),
+            format!("[main -> fork -> main with the headers of main#12 and fork#12 fetched, then fetch_transaction(Y of main#12)] {}", items[0]),
+            json!({"scenario": "switch-back", "all": items, "trace": sim.trace.iter().rev().take(60).rev().collect::<Vec<_>>()}),
+        );
+    }
+}
+
 fn parse_ev(s: &str) -> Option<Ev> {
     let (name, a) = bfs::parse_call(s);
     Some(match name.as_str() {
@@ -727,9 +801,13 @@ pub(crate) fn run(opts: &Opts, report: &mut Report) {
     // (start with fetches in flight, max depth)
     let configs: Vec<(bool, usize)> = if thorough { vec![(false, 4), (true, 4)] } else { vec![(false, 3), (true, 3)] };
     const SHARDS: usize = 16;
-    let n_items = configs.len() * SHARDS;
+    let n_items = configs.len() * SHARDS + 1;
     let worker = crate::verif::props::shard::run("C16", opts, report, n_items, 16, |item, report| {
         let env = Env::dummy();
+        if item == configs.len() * SHARDS {
+            switch_back_pass(&env, report);
+            return;
+        }
         let (start_in_flight, max_depth) = configs[item / SHARDS];
         let shard = item % SHARDS;
         let (main, fork) = build_chains(&env);
